@@ -97,6 +97,12 @@ var Profiles = map[string]*Profile{
 	// iterated through different code paths) for the determinism check.
 	"det": mkProfile("det", map[string]int{"proposeconf": 4, "compact": 2, "crash": 1, "restart": 4, "readindex": 3, "transfer": 2, "dup": 3},
 		func(p *Profile) { p.PBigGroup = 35; p.PJoiner = 40 }),
+	// crashbase: crash-free base schedules for the single-crash enumeration
+	// (C05): every Ready sub-step and storage-thread step is its own action,
+	// so every point the contract allows a crash at is an action boundary.
+	"crashbase": mkProfile("crashbase", map[string]int{"service": 0, "stabilize": 0, "step": 60, "deliver": 40, "crash": 0, "restart": 0,
+		"propose": 12, "tick": 10, "tickall": 6, "diverge": 0, "lagcompact": 0, "stallelect": 0, "burst": 2, "slowdisk": 1, "compact": 2,
+		"proposeconf": 2, "dup": 3, "drop": 2}, func(p *Profile) { p.PAsync = 50 }),
 	"live": mkProfile("live", map[string]int{"proposeconf": 5, "compact": 3, "crash": 3, "restart": 4, "readindex": 2, "transfer": 3,
 		"dup": 3, "isolate": 3, "drop": 6, "propose": 12, "unreachable": 2}, func(p *Profile) { p.AllowZeroApplyQuota = true; p.PTinyLimits = 40 }),
 }
@@ -231,6 +237,9 @@ type CaseConfig struct {
 	Exclude map[string]bool
 	// RecordOut records every observable output of every node (C19).
 	RecordOut bool
+	// Inject, if set, is called before random action number i (0-based) and
+	// once more with i = -1 after the last one (fault injection, C05).
+	Inject func(s *Sim, i int)
 }
 
 // CaseResult is the outcome of one case.
@@ -300,8 +309,16 @@ func RunCase(d Drawer, cfg CaseConfig) (res CaseResult) {
 		}
 	}
 	steps := d.Int(0, cfg.MaxSteps, "steps")
+	s.ActionsRun = 0
 	for i := 0; i < steps; i++ {
+		if cfg.Inject != nil {
+			cfg.Inject(s, i)
+		}
 		s.RandomAction(cfg.Profile)
+		s.ActionsRun++
+	}
+	if cfg.Inject != nil {
+		cfg.Inject(s, -1)
 	}
 	if cfg.Liveness {
 		s.LivenessSuffix()
